@@ -7,7 +7,10 @@ serialize, transcribing serde.py) and the real `onnx_ir.from_proto` / `to_proto`
 and the two results are compared field by field (ok/raised + the rendered result).
 
 Oracle (independent of the model): protobuf equality of the real round trip with the original,
-after an independent Python implementation of the documented normalisations (`py_norm`).
+after an independent Python implementation of the documented normalisations (`py_norm`); it also
+runs on the "edge" stream (supported protos outside WFproto) with the explicit list
+`EXPECTED_NORMALISATIONS`, and compares `onnx_ir.save(onnx_ir.load(file))` with the in-memory
+round trip for every model.
 
 The driver also evaluates the statement of the Lean theorem on every case
 (`WFproto x -> serialize (deserialize x) = norm x`); a false instance is reported as a disagreement.
@@ -20,6 +23,7 @@ import glob
 import logging
 import os
 import struct
+import tempfile
 import warnings
 
 import onnx
@@ -44,16 +48,13 @@ NS = "IrVerif.Serde."
 THEOREMS = [
     NS + n
     for n in (
-        "C02_dim",
         "C02_shape",
         "C02_maps",
         "C02_type",
         "C02_value_info",
-        "C02_tensor_proto_backed",
         "C02_tensor_string",
         "C02_tensor_external",
         "C02_devcfg",
-        "C02_attr_scalar",
         "C02_attr_list",
         "C02_attr_tensor",
         "C02_attr_type",
@@ -67,6 +68,11 @@ THEOREMS = [
         "C02_norm_idempotent",
         "C02_annotations",
         "C02_no_loss_names",
+        "C02_keeps_model",
+        "C02_keeps_nodes",
+        "C02_keeps_values",
+        "C02_node_alone",
+        "C02_function_alone",
     )
 ]
 ASSUMPTIONS = [
@@ -74,10 +80,28 @@ ASSUMPTIONS = [
     "optional scalars: unset == default value; absent sub-message == empty sub-message (rendering convention)",
     "bytes payloads are opaque tokens; float fields are compared as IEEE bit patterns (signalling NaNs excluded)",
     "sparse_initializer, training_info, TensorProto.segment, opaque/map types, sparse attributes are outside the supported set",
-    "quantization annotations are treated as a map keyed by tensor name (their order is not preserved by serde.py)",
+    "quantization annotations are treated as a map keyed by tensor name (their order is not preserved by serde.py); "
+    "an annotation with an empty parameter map is dropped (outside WFproto; py_norm drops it too)",
+    "one Value carries one type / shape / doc string / metadata dict: the entries of a value that is both a graph "
+    "input and a graph output (pass-through) are merged by the round trip - the output entry wins for type, shape "
+    "and doc string (also when it has none), the metadata dicts are united (output wins per key) - and BOTH entries "
+    "read that afterwards; this is a documented normalisation inside norm / the theorem (mergeVI), not a finding",
+    "further documented normalisations in norm (named in C02_keeps_values): the value_info of an initializer is "
+    "completed from its tensor where it says nothing (fillFromTensor: type, leaf shape); value_info is added for "
+    "every non-input initializer; value_info that addresses no value of the graph or carries no information is "
+    "dropped; external_data entries are written in the order location/offset/length/checksum (py_norm sorts them)",
+    "edge stream = supported protos outside WFproto in which the same thing is described twice (value_info for a "
+    "graph input / output, several output entries with one name, repeated opset domain, duplicate value_info, "
+    "extra external_data keys): oracle with the explicit list EXPECTED_NORMALISATIONS (E1-E7) + correspondence, no theorem",
+    "true by construction of the model and NOT claimed as theorems: dimension, scalar attribute and proto-backed "
+    "tensor round trips (bytes payloads are opaque tokens, a proto-backed tensor keeps its TensorProto); "
+    "float32<->double conversion and UTF-8 decoding live in the trusted renderer of this harness",
+    "the file entry points onnx_ir.load / onnx_ir.save are compared with from_proto / to_proto on every model case "
+    "(differential only; external tensor data is never touched)",
     "WFproto (theorem domain) vs the generator's valid stream: see histogram keys wf[valid]=...; outside WFproto "
     "(correspondence + oracle only) remain IR<10 models in which a value of the main graph itself has a name of the "
-    "experimental 'domain::name/value' form, or whose functions carry their own value_info",
+    "experimental 'domain::name/value' form, or whose functions carry their own value_info, and stand-alone nodes "
+    "whose subgraphs capture a name that is neither an input nor an output of the node",
     "experimental IR<10 entries whose name does not split back (first '::', then first '/') into an existing "
     "function and one of its values address nothing and count as unreferenced value-info (D106 semantics)",
     "a node input that resolves to a different Value object with the same name (scope shadowing order) is not "
@@ -341,6 +365,21 @@ def impl_roundtrip(kind, p):
     return ir.to_proto(ir.from_proto(p))
 
 
+def impl_file_roundtrip(p, tmpdir):
+    """the file entry points: onnx_ir.save(onnx_ir.load(file)) read back with onnx (no tensor data is touched:
+    external tensors stay references)."""
+    import onnx_ir as ir
+
+    src, dst = os.path.join(tmpdir, "in.onnx"), os.path.join(tmpdir, "out.onnx")
+    with open(src, "wb") as f:
+        f.write(p.SerializeToString())
+    ir.save(ir.load(src), dst)
+    out = ModelProto()
+    with open(dst, "rb") as f:
+        out.ParseFromString(f.read())
+    return out
+
+
 # --------------------------------------------------------------------------- independent oracle: py_norm
 
 _KEEP_PRESENCE = {("TypeProto.Tensor", "elem_type"), ("TypeProto.SparseTensor", "elem_type"),
@@ -389,7 +428,11 @@ def _vi_has_info(v):
 def _norm_tensor(t):
     _sort_entries(t.metadata_props)
     if t.data_location == TensorProto.EXTERNAL:
-        _sort_entries(t.external_data)
+        # E7: only the four keys of the ONNX spec survive (onnx's ExternalDataInfo ignores the others)
+        es = {e.key: e.value for e in t.external_data if e.key in ("location", "offset", "length", "checksum")}
+        del t.external_data[:]
+        for k in sorted(es):
+            t.external_data.add(key=k, value=es[k])
 
 
 def _norm_vi(v):
@@ -446,11 +489,86 @@ def _fill_from_tensor(v, t):
     return v
 
 
+# The expected normalisations of supported protos OUTSIDE the domain of the theorem (the "edge" stream).
+# The IR has ONE Value object per value and a Value carries ONE type / shape / doc string / metadata
+# dict, and ONE dict per map-like repeated field; a proto that describes the same thing twice is
+# folded accordingly.  Everything else must survive unchanged.
+EXPECTED_NORMALISATIONS = [
+    ("E1", "a value that is both graph input and graph output: both entries read the output entry's "
+           "type/shape/doc and the union of the metadata (output entry wins) [inside the theorem: mergeVI]"),
+    ("E2", "a value_info entry naming a graph input is dropped (the input entry describes the value)"),
+    ("E3", "a value_info entry naming a graph output produced in this graph (node output or non-input "
+           "initializer): its metadata is united into the output entry (output entry wins per key), its "
+           "type/shape/doc are overridden by the output entry; the value_info entry is dropped"),
+    ("E4", "several graph output entries with one name: each reads the last entry's type/shape/doc and the "
+           "union of their metadata (later wins); their number and positions are kept"),
+    ("E5", "opset_import with a repeated domain: one entry per domain, the last version"),
+    ("E6", "several value_info entries with one name: the last one counts"),
+    ("E7", "external_data keys other than location/offset/length/checksum are dropped"),
+]
+
+
+def _expected_normalisations(g):
+    """E2, E3, E4, E6 on one graph, in place (no-ops on a proto inside WFproto)."""
+    in_names = {v.name for v in g.input}
+    # E4
+    groups = {}
+    for vo in g.output:
+        groups.setdefault(vo.name, []).append(vo)
+    for name, vos in groups.items():
+        if len(vos) > 1:
+            md = {}
+            for vo in vos:
+                md.update({e.key: e.value for e in vo.metadata_props})
+            last = copy.deepcopy(vos[-1])
+            for vo in vos:
+                vo.CopyFrom(last)
+                del vo.metadata_props[:]
+                for k, v in md.items():
+                    vo.metadata_props.add(key=k, value=v)
+    # E6
+    by_name = {v.name: v for v in g.value_info}
+    vis = [copy.deepcopy(v) for v in by_name.values()]
+    # E2
+    vis = [v for v in vis if v.name not in in_names]
+    # E3
+    declared = {t.name for t in g.initializer} | {o for n in g.node for o in n.output if o}
+    rest = []
+    for v in vis:
+        if v.name in groups and v.name in declared:
+            for vo in groups[v.name]:
+                md = {e.key: e.value for e in v.metadata_props}
+                md.update({e.key: e.value for e in vo.metadata_props})
+                del vo.metadata_props[:]
+                for k, val in md.items():
+                    vo.metadata_props.add(key=k, value=val)
+        else:
+            rest.append(v)
+    del g.value_info[:]
+    g.value_info.extend(rest)
+
+
 def _norm_graph(g, extra_referenced=()):
     for n in g.node:
         _norm_node(n)
     for t in g.initializer:
         _norm_tensor(t)
+    _expected_normalisations(g)
+    # one Value carries one entry: a graph input that is also a graph output (pass-through) reads the
+    # output entry's type / doc string, and the union of both metadata maps (output entry wins)
+    outs_by_name = {v.name: v for v in g.output}
+    for vi in g.input:
+        vo = outs_by_name.get(vi.name)
+        if vo is not None:
+            merged = {e.key: e.value for e in vi.metadata_props}
+            merged.update({e.key: e.value for e in vo.metadata_props})
+            for v in [vi] + [o for o in g.output if o.name == vi.name]:  # (all alike after E4)
+                if v is vi:
+                    v.type.CopyFrom(vo.type) if vo.HasField("type") else v.ClearField("type")
+                    v.doc_string = vo.doc_string
+                del v.metadata_props[:]
+                for k in merged:
+                    v.metadata_props.add(key=k, value=merged[k])
     for v in list(g.input) + list(g.output) + list(g.value_info):
         _norm_vi(v)
     _sort_entries(g.metadata_props)
@@ -499,7 +617,7 @@ def _norm_function(f):
         _norm_vi(v)
     del f.value_info[:]
     f.value_info.extend(vis)
-    ops = sorted(((o.domain, o.version) for o in f.opset_import))
+    ops = sorted({o.domain: o.version for o in f.opset_import}.items())  # E5
     del f.opset_import[:]
     for d, v in ops:
         f.opset_import.add(domain=d, version=v)
@@ -527,7 +645,7 @@ def _norm_model(m):
     for f in m.functions:
         _norm_function(f)
     _sort_entries(m.metadata_props)
-    ops = sorted(((o.domain, o.version) for o in m.opset_import))
+    ops = sorted({o.domain: o.version for o in m.opset_import}.items())  # E5
     del m.opset_import[:]
     for d, v in ops:
         m.opset_import.add(domain=d, version=v)
@@ -808,12 +926,12 @@ class Gen:
         kinds = ["f", "i", "s", "t", "floats", "ints", "strings", "tensors", "tp", "type_protos"]
         if depth < 2:
             kinds += ["g", "g", "graphs"]
-        if in_function:
-            kinds += ["ref", "ref"]
+        # reference attributes: mostly in function bodies, but serde accepts them anywhere
+        kinds += ["ref", "ref"] if in_function else ["ref"]
         k = self.r.choice(kinds)
         if k == "ref":
             a.ref_attr_name = self.r.choice(["alpha", "beta", "é"])
-            a.type = self.r.choice(list(range(1, 11)) + [13, 14])
+            a.type = self.r.choice(list(range(0, 15)))  # incl. UNDEFINED and the sparse tensor types
         elif k == "f":
             a.type = AttributeProto.FLOAT
             a.f = self.f32()
@@ -938,6 +1056,13 @@ class Gen:
             self.tensor(g.initializer.add(), nm)
         nnodes = self.r.randrange(4 if depth else 6)
         node_outs = [self.node_outputs() for _ in range(nnodes)]
+        if depth and self.r.random() < 0.2:
+            # shadowing by a node output: a subgraph node produces a name that an enclosing scope declares too
+            free = [x for x in dict.fromkeys(outer_names) if x not in in_names and x not in init_names]
+            slots = [(i, j) for i, os_ in enumerate(node_outs) for j, o in enumerate(os_) if o]
+            if free and slots:
+                i, j = self.r.choice(slots)
+                node_outs[i][j] = self.r.choice(free)
         declared = in_names + [n for n in init_names if n not in in_names] + [o for os_ in node_outs for o in os_ if o]
         order = list(range(nnodes))
         if self.r.random() < 0.2:
@@ -953,7 +1078,13 @@ class Gen:
             self.vi(g.output.add(), nm)
         only_init = [n for n in init_names if n not in in_names]
         if g.input and self.r.random() < 0.08:
-            g.output.add().CopyFrom(self.r.choice(list(g.input)))  # pass-through: an input that is an output
+            # pass-through: an input that is an output.  Half of the time the output entry differs from
+            # the input entry (checker-valid): one Value carries one entry, the output entry wins
+            src = self.r.choice(list(g.input))
+            if self.r.random() < 0.5:
+                g.output.add().CopyFrom(src)
+            else:
+                self.vi(g.output.add(), src.name)
             out_names.append(g.output[-1].name)
         if only_init and self.r.random() < 0.08:
             nm = self.r.choice(only_init)  # a constant output: an initializer that is an output
@@ -967,7 +1098,7 @@ class Gen:
         self.r.shuffle(vi_names)
         for nm in vi_names:
             self.vi(g.value_info.add(), nm, typed=None if self.r.random() < 0.9 else False)
-        ann = [c for c in declared if c not in out_names or c in produced]
+        ann = list(declared)  # incl. pass-through inputs and constant outputs (the D29 shape)
         for nm in self.r.sample(ann, min(len(ann), self.r.choice([0, 0, 1, 2]))):
             a = g.quantization_annotation.add()
             a.tensor_name = nm
@@ -1089,8 +1220,15 @@ def gen_case(rng, kind):
     elif kind == "attr":
         g.attr(p, g.word(), [], 1)
     elif kind == "node":
+        # a stand-alone node: free inputs (deserialize_node creates placeholder values for them; the
+        # subgraphs of the node may capture them)
         outs = g.node_outputs()
-        g.node(p, [[o for o in outs if o]], outs, 1)
+        free = [g.fresh("free") for _ in range(rng.randrange(3))]
+        g.node(p, [[o for o in outs if o] + free], outs, 1)
+        if rng.random() < 0.9:
+            for nm in free:
+                if nm not in p.input:
+                    p.input.append(nm)
     elif kind == "graph":
         g.graph(p, [], 0)
     elif kind == "function":
@@ -1235,7 +1373,7 @@ def mutate(rng, kind, p):
                 if k == 0:
                     t.data_type = 99
                 elif k == 1 and t.data_location == TensorProto.EXTERNAL:
-                    t.external_data.add(key="offset", value=rng.choice(["-1", "x", "007"]))
+                    t.external_data.add(key="offset", value=rng.choice(["-1", "x", "007", ""]))
                 elif k == 2:
                     t.metadata_props.add(key="dup", value="1")
                     t.metadata_props.add(key="dup", value="2")
@@ -1283,6 +1421,83 @@ def mutate(rng, kind, p):
             if len(g.output):
                 g.output.add().CopyFrom(g.output[0])
             what.append("duplicate-keys")
+    return p, what
+
+
+# --------------------------------------------------------------------------- edge stream
+
+
+def _graphs_of(x):
+    if isinstance(x, ModelProto):
+        yield from _graphs_of(x.graph)
+        for f in x.functions:
+            yield from _graphs_of(f)
+    elif isinstance(x, GraphProto):
+        yield x
+        for n in x.node:
+            yield from _graphs_of(n)
+    elif isinstance(x, FunctionProto):
+        for n in x.node:
+            yield from _graphs_of(n)
+    elif isinstance(x, NodeProto):
+        for a in x.attribute:
+            if a.HasField("g"):
+                yield from _graphs_of(a.g)
+            for g in a.graphs:
+                yield from _graphs_of(g)
+
+
+def edge(rng, kind, p):
+    """Supported protos outside WFproto: the same thing described twice.  The oracle runs on them with
+    EXPECTED_NORMALISATIONS (E2..E7); correspondence as everywhere."""
+    p = copy.deepcopy(p)
+    gen = Gen(rng)
+    what = []
+    gs = list(_graphs_of(p))
+    for _ in range(rng.choice([1, 1, 2])):
+        c = rng.randrange(7)
+        g = rng.choice(gs) if gs else None
+        if c == 0 and g is not None and g.input:
+            gen.vi(g.value_info.add(), rng.choice(list(g.input)).name)
+            what.append("E2:value-info-for-input")
+        elif c == 1 and g is not None:
+            declared = {t.name for t in g.initializer} | {o for n in g.node for o in n.output if o}
+            ins = {v.name for v in g.input}
+            cand = [v.name for v in g.output if v.name in declared and v.name not in ins and v.HasField("type")]
+            if cand:
+                gen.vi(g.value_info.add(), rng.choice(cand))
+                what.append("E3:value-info-for-output")
+        elif c == 2 and g is not None:
+            declared = {t.name for t in g.initializer} | {o for n in g.node for o in n.output if o} | {v.name for v in g.input}
+            cand = [v.name for v in g.output if v.name in declared]
+            if cand:
+                gen.vi(g.output.add(), rng.choice(cand), typed=True)
+                what.append("E4:duplicate-output")
+        elif c == 3:
+            holders = ([p] if isinstance(p, (ModelProto, FunctionProto)) else []) + (list(p.functions) if isinstance(p, ModelProto) else [])
+            holders = [h for h in holders if len(h.opset_import)]
+            if holders:
+                h = rng.choice(holders)
+                o = rng.choice(list(h.opset_import))
+                h.opset_import.add(domain=o.domain, version=o.version + rng.choice([-1, 1, 0]))
+                what.append("E5:duplicate-opset")
+        elif c == 4 and g is not None and g.value_info:
+            nm = rng.choice(list(g.value_info)).name
+            gen.vi(g.value_info.add(), nm)
+            what.append("E6:duplicate-value-info")
+        elif c == 5:
+            ts = [t for g_ in gs for t in g_.initializer if t.data_location == TensorProto.EXTERNAL]
+            if ts:
+                t = rng.choice(ts)
+                t.external_data.add(key=rng.choice(["basepath", "foo"]), value="/x")
+                what.append("E7:extra-external-key")
+        elif c == 6 and g is not None and g.input and g.output:
+            # E1 together with E4 / E2: a pass-through with two output entries or a value_info entry
+            src = rng.choice(list(g.input))
+            gen.vi(g.output.add(), src.name, typed=True)
+            if rng.random() < 0.5:
+                gen.vi(g.value_info.add(), src.name)
+            what.append("E1:pass-through-again")
     return p, what
 
 
@@ -1390,7 +1605,7 @@ def run_cases(ctx: Ctx, cases):
                              {"r": out["r"], "norm": out["norm"]}, None)
         # ---- oracle: the property itself, on the real objects
         known_sig = None
-        if stream in ("valid", "corpus"):
+        if stream in ("valid", "corpus", "edge"):
             if rt is None:
                 sig = f"C02 {kind} roundtrip-raised {impl.get('exc')}" + raise_shape(kind, p)
                 if is_known(ctx, sig):
@@ -1403,6 +1618,19 @@ def run_cases(ctx: Ctx, cases):
                     if is_known(ctx, sig):
                         known_sig = sig
                     ctx.fail(sig, "round trip differs from the original beyond the documented normalisations", rec)
+            # the file entry points must do exactly what from_proto / to_proto do
+            if kind == "model" and rt is not None:
+                try:
+                    with tempfile.TemporaryDirectory(prefix="c02-") as td:
+                        frt = impl_file_roundtrip(p, td)
+                    if frt != rt:
+                        ctx.fail(f"C02 model file-roundtrip-differs {first_diff(rt, frt)}",
+                                 "onnx_ir.save(onnx_ir.load(file)) differs from to_proto(from_proto(proto))", rec)
+                    else:
+                        ctx.count("file-roundtrip=same")
+                except Exception as e:  # noqa: BLE001
+                    ctx.fail(f"C02 model file-roundtrip-raised {type(e).__name__}",
+                             "onnx_ir.load / onnx_ir.save raised where from_proto / to_proto did not", rec)
         # ---- correspondence (the model has the known defects fixed: a divergence explained by a
         # known finding of this very case is counted, not reported)
         if model_ok and (out["ok"] != impl["ok"] or (out["ok"] and out["r"] != impl["r"])):
@@ -1417,7 +1645,8 @@ def run_cases(ctx: Ctx, cases):
 
 def run(ctx: Ctx) -> None:
     ctx.rule = (
-        "structured random protos per message kind (valid stream: oracle + correspondence; invalid stream: "
+        "structured random protos per message kind (valid stream: oracle + correspondence; edge stream = supported "
+        "protos outside WFproto: oracle with the expected-normalisation list E1-E7 + correspondence; invalid stream: "
         "correspondence only) + repo testdata + ONNX backend corpus; distinct by (kind, rendered proto); "
         "every case is non-trivial (a message with at least one field)"
     )
@@ -1444,6 +1673,10 @@ def run(ctx: Ctx) -> None:
                 q, what = mutate(rng, kind, p)
                 if what:
                     cases.append((kind, q, "invalid", "+".join(what)))
+            if kind in ("graph", "function", "model") and rng.random() < 0.4:
+                q, what = edge(rng, kind, p)
+                if what:
+                    cases.append((kind, q, "edge", "+".join(what)))
     run_cases(ctx, cases)
     cases = [("model", m, "corpus", name) for name, m in corpus_models(ctx)]
     run_cases(ctx, cases)
